@@ -372,6 +372,47 @@ def r14e(ctx, rep, cr):
     rep.floor('R14e', 'TTL heap removal sites', n, 2)
 
 
+def r14f(ctx, rep, cr):
+    rep.rule('R14f', 'revocation removes every access edge: in each Vault function that deletes access edges (revoke, '
+                     'cleanup_expired_grants, revoke_delegation, revoke_delegation_cascading, …) the edge id handed to delete_graph_edge '
+                     'comes out of a loop over the candidate edges (get_entity_outgoing_edges, or the secret\'s incoming edges) — the next() that yields it lies on a cycle with the delete — so '
+                     'all edges between the identity and the secret go, not the first one found: grant() never replaces an existing edge, '
+                     'an identity granted twice (Read then Write, delegation plus direct grant, standing grant plus TTL elevation) has two')
+    n = 0
+    for name, f in sorted(cr.fns.items()):
+        if not name.startswith(V):
+            continue
+        dels = A.calls_to(f, V + 'delete_graph_edge')
+        if not dels:
+            continue
+        defs = A.Defs(f)
+        for k, c in enumerate(dels):
+            if len(c.args) < 2 or c.args[1][0] == 'k':
+                continue
+            flds, params, callees = lib.provenance_fields(f, defs, c.args[1])
+            plocals = set(lib.provenance_fields.last_locals)
+            if params and not any(x.endswith('get_entity_outgoing_edges') or x.endswith('find_access_edge') for x in callees) and \
+                    not any(re.search(r'Iterator>?::(next|find)$', x) for x in callees):
+                continue   # a helper that deletes the edge id it is given
+            n += 1
+            rep.analysed(f)
+            nexts = [x for x in A.calls(f) if (re.search(r'Iterator>?::next$', x.generic) or re.search(r'Iterator>?::next$', x.resolved))]
+            src_ok = any(x.endswith('get_entity_outgoing_edges') or x.endswith('get_entity_incoming_edges') for x in callees)
+            in_loop = False
+            sl = A.backward_slice(f, [c.args[1]], defs)
+            for nx in nexts:
+                if nx.dest[0] in plocals and c.bb in A.reachable(f, [nx.target]) and nx.bb in A.reachable(f, [c.target]):
+                    in_loop = True
+            if in_loop:
+                rep.holds('R14f', f, 'delete#%d' % k, 'inside a loop over the edges it selects from')
+            else:
+                rep.violation('R14f', f, 'single-edge-revoke', f.loc(c.line),
+                              'the access edge to delete is picked once (%s) instead of inside a loop over all of the identity\'s edges: an '
+                              'identity that was granted the secret twice keeps an edge after revoke / expiry and can still read it' % (
+                                  ', '.join(sorted(lib.short(x) for x in callees if 'find' in x or 'first' in x or 'next' in x)) or 'no loop'))
+    rep.floor('R14f', 'access-edge deletions in revoke paths', n, 3)
+
+
 def run(ctx, rep):
     cr = ctx.crate('tensor_vault')
     cg = ctx.callgraph(['tensor_vault'])
@@ -380,3 +421,4 @@ def run(ctx, rep):
     r14b(ctx, rep, cr)
     r14c(ctx, rep, cr)
     r14e(ctx, rep, cr)
+    r14f(ctx, rep, cr)
